@@ -197,6 +197,12 @@ func (u *unpacker) read(sz uint64, x interface{}) bool {
 }
 
 func (u *unpacker) readStr(n int) (ok bool) {
+	// The length may come from the packed data itself: make sure it is
+	// available before requiring budget or allocating anything.
+	if n < 0 || n > len(u.pack)-u.j {
+		u.err = errUnexpectedPackEnd
+		return false
+	}
 	if !u.consumeBudget(uint64(n)) {
 		return false
 	}
